@@ -21,12 +21,23 @@ func checkC02(c *Ctx) {
 	r.Decides = append(r.Decides,
 		"K1 dispatch agreement: for every ParseOption / parseNTPSuboption / DUIDFromBytes case K→T, T.Code() (DUIDType()) returns the constant K; every type implementing dhcpv6.Option with a constant Code() appears in a parser table; unknown codes fall back to the generic type",
 		"K2/K3 per-type wire schema: the slot sequence (width, field, transform) extracted from every DHCPv6 encoder and decoder (options, DUID kinds, message and relay headers, option framing) equals the reviewed row of spec/layouts.json, whose width skeleton was written from the cited RFC section; hence encoder and decoder agree slot by slot and with the RFC layout",
-		"K4 order: the option encoder ranges over the option slice; the decoder appends each parsed option (part of the Options rows)")
+		"K4 order: the option encoder ranges over the option slice; the decoder appends each parsed option (part of the Options rows)",
+		"K7 label sets inside decoded options re-emit their original bytes only while their names are unchanged under an exact comparison (shared with C19-K1)")
 	r.NotDecided = append(r.NotDecided, "value equality beyond slot/field/transform agreement (behaviour of net, time, append)", "label codec internals (C19)")
 	e1ParserTables(c, "C02-K1")
 	labelNameCap(c, "C02-K6")
 	e1CheckConstants(c, "C02-K5", []string{"dhcpv6.", "iana.StatusCode", "iana.Arch", "iana.HWType", "iana.EnterpriseID"}, 200)
+	byteOrderRule(c, "C02-K8", []string{"dhcpv6", "iana", "rfc1035label"}, 40)
+	e8CheckRejects(c, "C02-K9", func(n string) bool {
+		return strings.Contains(n, "dhcpv6.") || strings.Contains(n, "iana.") || strings.Contains(n, "rfc1035label.")
+	}, 15)
 	e2CheckLayouts(c, "C02-K2", isV6Codec, 90)
+	// a decoded option carrying domain names (FQDN, domain search list, NTP server FQDN, …) re-encodes through the
+	// label set's re-emission rule: an edited name list must be re-encoded (shared with C19-K1)
+	c19Rule = "C02-K7"
+	c19ToBytes(c)
+	c19Same(c)
+	c19Rule = "C19-K1"
 	r.Assume("spec/layouts.json rows are my reading of the cited RFC sections; the width skeletons were written by hand from the RFC text (tools/genlayouts.py) and the field/transform strings reviewed against the code once")
 }
 
